@@ -175,7 +175,11 @@ def _ns():
             self.st, self.side = st, side
 
         def _make(self, tlsProtocol):
-            conn = SSL.Connection(SSL.Context(SSL.TLS_METHOD), None, profile=self.st.profile)
+            if self.st.cfg.get("engine") == "real":
+                from checks import _c17_realssl as R
+                conn = R.RealConnection(R.context(self.st.profile["version"], self.st.profile["cert_bytes"]))
+            else:
+                conn = SSL.Connection(SSL.Context(SSL.TLS_METHOD), None, profile=self.st.profile)
             self.side.conn = conn
             return conn
 
@@ -215,7 +219,8 @@ class St:
         ns = _ns()
         self.cfg = cfg
         self.seed = seed
-        self.profile = {"version": cfg["version"], "eof": cfg["eof"], "max_fragment": cfg.get("frag", 2 ** 14)}
+        self.profile = {"version": cfg["version"], "eof": cfg["eof"], "max_fragment": cfg.get("frag", 2 ** 14),
+                        "cert_bytes": cfg.get("cert", 0)}
         self.nev = 0
         self.npartial = 0          # partial deliveries so far (bounded, see BOUNDS)
         self.maxpartial = cfg.get("partial")      # None = unbounded
@@ -304,7 +309,7 @@ PREFIX = {
 }
 
 
-def _cut(pending, how):
+def _cut(pending, how, real=False):
     n = len(pending)
     if how == "all":
         return n
@@ -313,7 +318,9 @@ def _cut(pending, how):
     if how == "half":
         return n // 2
     if how == "rec":
-        return 3 + pending[1] if n >= 3 else n
+        if real:    # TLS record header: type, version (2), length (2)
+            return 5 + (pending[3] << 8 | pending[4]) if n >= 5 else n
+        return 4 + (pending[1] << 8 | pending[2]) if n >= 4 else n
     raise ValueError(how)
 
 
@@ -354,7 +361,7 @@ def apply(st, ev):
         st._guard(side, "loseConnection", lambda: side.tls.loseConnection())
     elif op == "d":
         p = st.pending(side)
-        n = _cut(p, ev[2])
+        n = _cut(p, ev[2], st.cfg.get("engine") == "real")
         if ev[2] != "all":
             st.npartial += 1
         data = p[:n]
@@ -404,7 +411,7 @@ def pending_events(st):
                 if st.maxpartial is None or st.npartial < st.maxpartial:
                     seen = {n}
                     for how in st.cuts:
-                        k = _cut(p, how)
+                        k = _cut(p, how, st.cfg.get("engine") == "real")
                         if 0 < k < n and k not in seen:
                             seen.add(k)
                             evs.append(("d", name, how))
@@ -502,6 +509,14 @@ def invariant(st, hist):
                 out.append(("TLS:bytes-not-delivered-at-quiescence:%s:%s-write" % (closer, missing),
                             "quiescent, %s application received %r but the peer wrote %r before its loseConnection" % (
                                 who, got, must)))
+            # whatever the engine of a writer that did not abort encrypted is on the wire in order; a reader that did
+            # not abort keeps reading until the writer's close_notify / EOF, which come later in the stream
+            sent = b"".join(wr.conn.log_sent)
+            if prefix_ok and not rd.abortive and not wr.abortive and exp.startswith(sent) and not got.startswith(sent) and \
+                    not (must and not got.startswith(must)):
+                out.append(("TLS:encrypted-bytes-not-delivered-at-quiescence",
+                            "quiescent, the peer's TLS engine encrypted %r but the %s application (which did not abort) "
+                            "received only %r" % (sent, who, got)))
             # a push producer unregisters when the application decides to (an environment choice); a pull producer
             # finishes by itself as long as the TLS layer keeps pulling it, so it is no excuse
             waits_for_producer = any(s.lose_idx is not None and s.registered and s.mode == "push"
@@ -516,6 +531,19 @@ def invariant(st, hist):
                                 "nor reached by EOF" % who))
     for ev in st.logged:
         out.append(("TLS:failure-logged", ev))
+    if st.cfg.get("cert"):
+        # one root cause, one signature: in the big-flight configuration the quiescence consequences of a handshake
+        # that stalled with engine output left unflushed are reported as that
+        stuck = [(n, _out_len(s.conn)) for n, s in st.sides.items() if _out_len(s.conn) and not st.hs_done(s)]
+        if quiet and stuck:
+            cons = sorted({sig for sig, _d in out if "-at-quiescence" in sig})
+            out = [(sig, d) for sig, d in out if "-at-quiescence" not in sig]
+            if cons:
+                out.append(("TLS:handshake-stalls:flight-over-32KiB-partly-left-in-write-BIO",
+                            "quiescent with the handshake unfinished: part of a handshake flight carrying a %d-byte "
+                            "Certificate is still in the write BIO of %s (one bio_read(2**15) per flush); consequences: %s" % (
+                                st.cfg["cert"], [n for n, _k in stuck], ", ".join(cons))))
+        out = [(sig if sig.startswith("TLS:handshake-stalls") else sig + ":big-handshake-flight", d) for sig, d in out]
     return out
 
 
@@ -537,6 +565,10 @@ def _tls_view(p):
             prod is not None, bool(_g(prod, "_producerPaused")), _g(p, "_reason") is None,
             tuple(bytes(x) for x in (_g(agg, "_buffer") or ())), bool(_g(agg, "_scheduled")),
             _g(task_, "_pauseCount"), _g(task_, "_completionState") is None, _g(p, "_tlsConnection") is None)
+
+
+def _out_len(c):
+    return c.pending_out() if hasattr(c, "pending_out") else len(c._out)
 
 
 def _engine_view(c):
@@ -590,10 +622,32 @@ def configs(tier):
             for start in ("fresh", "est"):
                 for menu in menus:
                     out.append({"version": version, "eof": eof, "modes": list(m), "start": start, "menu": menu})
+    # a server Certificate message of 40000 bytes: the server's second flight exceeds 2**15 bytes
+    for (version, eof), _m in plan[:2]:
+        out.append({"version": version, "eof": eof, "modes": ["direct", "direct"], "start": "fresh", "menu": "rec",
+                    "cert": 40000, "depth": 7 if tier == "quick" else 9})
     # small record fragments: send() consumes 2 of the 3 bytes per call (partial-write loop in _write)
     for (version, eof), _m in plan[:2]:
         for start in ("fresh", "est"):
             out.append({"version": version, "eof": eof, "modes": ["direct", "direct"], "start": start, "menu": "rec", "frag": 2})
+    # trusted base: model engine vs the local libssl (cffi), BFS over API call sequences
+    cd = {"fresh": 10, "est": 6} if tier == "quick" else {"fresh": 12, "est": 8}
+    for version in ("1.3", "1.2"):
+        for start in ("fresh", "est"):
+            out.append({"kind": "conf", "version": version, "start": start, "depth": cd[start]})
+    # the real tls.py on REAL OpenSSL: re-execution of every history that reaches a distinct model state
+    rd = {"fresh": 8, "est": 7} if tier == "quick" else {"fresh": 10, "est": 9}
+    rmodes = [("direct", "direct"), ("push", "pull"), ("pull", "push")] if tier == "quick" else _ALL9
+    for version in ("1.3", "1.2"):
+        for m in rmodes:
+            for start in ("fresh", "est"):
+                d = rd[start] - (0 if m == ("direct", "direct") or tier != "quick" else 1)
+                out.append({"kind": "real", "engine": "real", "version": version, "eof": "ssl", "modes": list(m),
+                            "start": start, "menu": "rec", "depth": d})
+        out.append({"kind": "real", "engine": "real", "version": version, "eof": "ssl", "modes": ["direct", "direct"],
+                    "start": "est", "menu": "mixed", "depth": rd["est"] - 1})
+        out.append({"kind": "real", "engine": "real", "version": version, "eof": "ssl", "modes": ["direct", "direct"],
+                    "start": "fresh", "menu": "rec", "cert": 40000, "depth": 5})
     return out
 
 
@@ -646,8 +700,65 @@ def _observe(stats, cfgkey, st):
         stats.nt((cfgkey, canon(st)))
 
 
+def _run_conf(shard, tier):
+    """Trusted-base check: the model engine against the local libssl (a deviation is a harness error, not a finding)."""
+    from checks import _c17_realssl as R
+    stats = Stats()
+    if not R.available():
+        stats.notes.append("C17: libssl cffi bindings unavailable - model/real conformance part skipped")
+        return stats
+    res = R.conformance(shard["version"], "ssl", shard["depth"], R.EST[shard["version"]] if shard["start"] == "est" else None)
+    stats.count("conformance_states", res.states)
+    stats.count("conformance_transitions", res.transitions)
+    stats.outcome("model-engine-conforms-to-real-openssl")
+    if res.violations:
+        raise RuntimeError("C17 model engine deviates from real OpenSSL (%s): %r" % (R.openssl_version(), res.violations[:5]))
+    return stats
+
+
+def _run_real(cfg, tier, seed):
+    """Every history that reaches a distinct model state (BFS over the model-engine harness, depth cfg['depth']) is
+    re-executed with REAL OpenSSL as the engine of the real tls.py, under the same oracle."""
+    from checks import _c17_realssl as R
+    stats = Stats()
+    if not R.available():
+        stats.notes.append("C17: libssl cffi bindings unavailable - real-OpenSSL part skipped")
+        return stats
+    mcfg = {k: v for k, v in cfg.items() if k not in ("engine", "kind")}
+    hists = []
+    bfs(lambda: St(mcfg, seed), apply, enabled, canon, lambda st, h: (), cfg["depth"], on_state=lambda st, h: hists.append(h))
+    diverged = 0
+    for h in hists:
+        st = St(cfg, seed)
+        done = 0
+        for ev in h:
+            if ev not in enabled(st):
+                diverged += 1
+                break
+            apply(st, ev)
+            done += 1
+            bad = invariant(st, h[:done])
+            if bad:
+                for sig, d in bad:
+                    stats.violation(sig, d, {"config": cfg, "seed": seed, "history": [list(e) for e in h[:done]]})
+                break
+        stats.evaluations += 1
+        stats.count("real_openssl_events", done)
+        if done == len(h) and not pending_events(st) and all(s.closed and s.app.lost == 1 for s in st.sides.values()) \
+                and any(s.app.data for s in st.sides.values()):
+            stats.outcome("real-openssl:quiescent-both-closed-with-data")
+    stats.count("real_openssl_histories", len(hists))
+    stats.count("real_openssl_histories_not_applicable", diverged)
+    stats.outcome("real-openssl-engine-run")
+    return stats
+
+
 def run_shard(shard, tier, seed):
     cfg = shard
+    if cfg.get("kind") == "conf":
+        return _run_conf(cfg, tier)
+    if cfg.get("kind") == "real":
+        return _run_real(cfg, tier, seed)
     stats = Stats()
     cfgkey = repr(sorted(cfg.items()))
     depth = cfg.get("depth") or DEPTH[tier][(cfg["menu"], cfg["start"])]
